@@ -22,14 +22,14 @@ def AUX(name, cmd, quick, thorough, model=False, cgo=False):
 PROPS = {
     'C01': {
         'streams': [S('C01', 250, 6000)],
-        'explanation': 'theorems: wire message has the shape of the visible tree (all trees); a process knowing none of the types re-emits its input verbatim (all wire trees, all strings). Correspondence: text/shape tree and encoded message of model vs implementation locally and after 1 and 2 knowing hops on the enumerated kind x kind corpus + random trees; Go relation: text tree equal after hops 1..4, wire bytes of hop k = hop k+1 for k>=1',
-        'not_yet_proved': ['C01_shape_text (knowing hops keep text and shape, all trees)', 'C01_no_drift for knowing processes'],
+        'explanation': 'theorems: one knowing hop is the identity (up to object identity) for every error of exact-decoder kinds, any byte strings, any depth, any number of hops; for EVERY error and every process with closed knowledge everything is stable from the second hop on and the wire message is a fixpoint (from the first hop unless a foreign-platform errno is forwarded); wire message has the shape of the visible tree; a process knowing none of the types re-emits its input verbatim. Correspondence: text/shape tree and encoded message of model vs implementation locally and after 1 and 2 knowing hops on the enumerated kind x kind corpus + random trees; Go relation: text tree equal after hops 1..4, wire bytes of hop k = hop k+1 for k>=1',
+        'not_yet_proved': ['the FIRST hop keeps the text at nodes that decode to the opaque stand-ins (stack layer, pkg/errors, fmt.Errorf, user types); proved: exact-kind errors at the first hop, every error from the second hop on'],
         'assumptions': [ASSUME_UNIVERSE, 'regular strings (property quantifier)'],
     },
     'C02': {
         'streams': [S('C02', 200, 5000)],
-        'explanation': 'theorems: Is is decided by identity / Is methods / mark equality over the visible nodes; opaque stand-ins carry the origin type marks; hops through unknowing processes are invisible to later processes. Correspondence: Is against sentinels, nodes, rebuilt and perturbed copies before and after mixed hop sequences; Go relation: Is invariant (e transferred / both / only r)',
-        'not_yet_proved': ['C02_is_transfer for knowing hops over all trees (needs C01_shape_text)'],
+        'explanation': 'theorems: Is is decided by identity / Is methods / mark equality over the visible nodes (iff); Is and IsAny cannot distinguish errors with the same erasure (hence: unchanged by one knowing hop for exact-kind errors, unchanged from the second hop on for every error); reference-side statement with the os-sentinel exemption (witness proved); opaque stand-ins carry the origin type marks; unknowing hops invisible later. Correspondence: Is against sentinels, nodes, rebuilt and perturbed copies before and after mixed hop sequences; Go relation: Is invariant (e transferred / both / only r)',
+        'not_yet_proved': ['first-hop mark preservation for kinds decoded to the opaque stand-ins (same gap as C01)'],
         'assumptions': [ASSUME_UNIVERSE, 'the process evaluating Is can rebuild the types whose own Is method or Mark layer produced the match (DESIGN.md section 6 reading)'],
     },
     'C03': {
@@ -41,7 +41,7 @@ PROPS = {
     'C04': {
         'streams': [S('C04', 200, 5000)],
         'explanation': 'theorems: exact re-encoding and confluence through processes that know none of the types, opaque nodes show the received text and keep names and details; refutation witnesses for the two recorded findings. Correspondence: shape / wire message / details at intermediaries with random knowledge subsets and at a later knowing process; Go relation: text, byte-exact re-encoding, names and details, reconstruction equal to direct receipt',
-        'not_yet_proved': ['C04_confluence for partially knowing intermediaries'],
+        'not_yet_proved': ['confluence (later knowing process = direct receipt) for partially knowing intermediaries'],
         'assumptions': [ASSUME_UNIVERSE, 'regular strings'],
     },
     'C06': {
@@ -52,8 +52,8 @@ PROPS = {
     },
     'C07': {
         'streams': [S('C07', 250, 6000), S('C07M', 150, 4000)],
-        'explanation': 'theorems: hidden payloads are not in the visible tree, Is / accessors of barrier, secondary and mark layers do not depend on them, the hidden payload is re-decoded into the hidden position. Correspondence: accessors, Is, As; Go relation: the same context built over a different hidden payload gives the same cause analysis, locally and after hops',
-        'not_yet_proved': ['C07_ni lifted through arbitrary contexts by induction'],
+        'explanation': 'theorems: full non-interference: any two errors equal up to what is hidden behind barriers / in secondary positions (any context, any depth, inside multi-cause branches) agree on Is / IsAny (both sides) / As / HasType / every accessor / Error() / %v / marks / traversal; a Mark layer keeps only the mark; the hidden payload is re-decoded into the hidden position. Correspondence: accessors, Is, As; Go relation: the same context built over a different hidden payload gives the same cause analysis, locally and after hops',
+        'not_yet_proved': ['"hidden error visible in %+v and contributes safe details" (correspondence only)'],
         'assumptions': [ASSUME_UNIVERSE],
     },
     'C08': {
@@ -63,20 +63,20 @@ PROPS = {
     },
     'C09': {
         'streams': [S('C09', 150, 5000)],
-        'explanation': 'Correspondence: %v and %+v byte-equal model vs implementation (local and decoded); Go relation: %v = %s = Error(), %q/%x/%X/width/precision/flags = fmt on the Error() string, entry count, Error types line, bad verbs',
-        'not_yet_proved': ['C09_v_s, C09_plus_v layout theorem'],
+        'explanation': 'theorems: %v = Error() for every tree of every kind with plain strings (no newline; ASCII where escaped); exactly one entry per visible layer for every tree / flags / state; types line. Correspondence: %v and %+v byte-equal model vs implementation (local and decoded); Go relation: %v = %s = Error(), %q/%x/%X/width/precision/flags = fmt on the Error() string, entry count, Error types line, bad verbs',
+        'not_yet_proved': ['the layout of each entry of %+v; %v = Error() for strings with interior newlines (false for arbitrary newlines)'],
         'assumptions': [ASSUME_UNIVERSE, "Go's fmt for %q/%x/%X/width/precision is not modelled (oracle only)"],
     },
     'C10': {
         'streams': [S('C10', 300, 8000)],
         'explanation': 'theorems: annotation layers transparent for text / root / Is / As, prefix and new-message layers, Handled, nil propagation for every wrapper constructor, CombineErrors / WithSecondaryError nil laws, leaf constructors non-nil. Correspondence: nil-ness, text at every node, root; Go relation: independent compositional model of text and nil-ness over recipes',
-        'not_yet_proved': ["the cause inside 'prefix: cause' is printed with %v: equality with Error() is C09_v_s"],
+        'not_yet_proved': ['prefix: cause-text for causes whose strings contain newlines'],
         'assumptions': [ASSUME_UNIVERSE, 'regular strings'],
     },
     'C11': {
         'streams': [S('C11', 200, 5000)],
-        'explanation': 'theorems: every annotation layer is rebuilt by one knowing hop over any cause; unknowing hops invisible later. Correspondence: every accessor, per-layer safe details, reportable stacks, one-line source before and after 1 and 2 knowing hops; Go relation: accessor vector equal after hops 1..3',
-        'not_yet_proved': ['C11_obs over whole trees by induction', 'C11_stack_codec'],
+        'explanation': 'theorems: every accessor is a function of the erasure; exact-kind errors keep every annotation and per-layer safe details over any number of knowing hops; every error is stable from the second hop on; every annotation layer is rebuilt over any cause; unknowing hops invisible later. Correspondence: every accessor, per-layer safe details, reportable stacks, one-line source before and after 1 and 2 knowing hops; Go relation: accessor vector equal after hops 1..3',
+        'not_yet_proved': ['reportable stack frames of stack layers across the first hop (printed-stack codec)'],
         'assumptions': [ASSUME_UNIVERSE],
     },
     'C12': {
